@@ -75,6 +75,8 @@ class C19(Check):
             cfgs.append(Config('front_joint_W%d' % W, self.front, {'joint': True, 'W': W}, split=4))
             cfgs.append(Config('front_joint_vector_beta_W%d' % W, self.front, {'joint': True, 'W': W, 'vector': True}, split=4))
         cfgs.append(Config('failing', self.failing, {}, split=3))
+        for cf in cfgs:
+            cf.witness_every = cf.witness_every or 7
         return cfgs
 
     def kernel(self, c, T, K, form):
